@@ -137,7 +137,7 @@ func (e *Engine) Execute(p *sim.Plan, keepLog bool) (res *sim.RunResult) {
 		if r := recover(); r != nil {
 			verifrt.RecordPanic("repsim step", r)
 			res.HarnessErr = fmt.Sprintf("panic in step %d: %v", x.step, r)
-			for _, pr := range verifrt.TakePanics() {
+			for _, pr := range verifrt.TakePanicsQuiesced() {
 				res.HarnessErr += "\n" + pr.Stack
 			}
 		}
@@ -166,7 +166,7 @@ func (e *Engine) Execute(p *sim.Plan, keepLog bool) (res *sim.RunResult) {
 	x.quiesce()
 	x.finalChecks()
 	// panics in goroutines spawned by git-bug
-	for _, pr := range verifrt.TakePanics() {
+	for _, pr := range verifrt.TakePanicsQuiesced() {
 		x.probe("panic_observed")
 		if x.on("C07") {
 			x.violate("panic", "panic in %s: %s", pr.Site, pr.Value)
